@@ -279,7 +279,8 @@ def encode(chooser, seq, physical: int, sizes, *, namespaces=(), features=ALL_FE
             enc.rows.append(last)
         if namespaces and enc._c("late-namespace", 2, "late-namespace"):
             # a producer may declare a namespace anywhere, also between two statements of a frame
-            enc.namespace("late", "http://late/ns#")
+            # (same label as the first declaration, another namespace: a legal re-declaration)
+            enc.namespace(namespaces[0][0], "http://late/ns#")
     enc.finish()
     raw = [jwire.enc_frame(rows, meta) for rows, meta in enc.frames]
     if single:
